@@ -249,6 +249,15 @@ def run_case(c):
             check_mpo(fail, qual, graph, gp, L, charges, rng, oid_id)
     if not fails and len(chains_d) >= 2 and c['seed'] % 4 == 0:
         # history: change coefficients on the *same* OpChain objects (switch one term off or on, rescale another) and compile again
+        try:
+            gp0 = hg.graph_poly(OpGraph.from_opchains(chains, L + 1, oid_id))      # same objects, longer lattice, nothing changed
+            ref0 = hg.p_clean(hg.chains_poly(chains_d, L + 1, oid_id))
+            if not hg.p_eq(gp0, ref0):
+                fail('polynomial', f'same OpChain objects compiled for length {L + 1} after length {L}: [[graph]] - [[chains]] = {hg.p_diff(gp0, ref0)}; chains={chains_d}',
+                     'OpGraph.from_opchains:polynomial:recompiled')
+        except Exception as e:
+            if not hg.is_final_coeff_assert(e):
+                fail('returns', f'compilation of the same OpChain objects for length {L + 1} raised {type(e).__name__}: {e}', 'OpGraph.from_opchains:returns:recompiled')
         mod = [list(ch) for ch in chains_d]
         k0, k1 = [int(x) for x in rng.choice(len(mod), size=2, replace=False)]
         mod[k0][2] = 0.0 if mod[k0][2] != 0 else 2.0
